@@ -232,9 +232,6 @@ fn look_alike(c: &LookCase, st: &mut Stats) -> Result<(), String> {
         let sum: usize = si.compressed_sizes.iter().take(c.boundary as usize).map(|&x| x as usize).sum();
         let have = sum % FAIL_SAFE_BUFFER;
         built = Some((bytes, content));
-        if std::env::var("VERIF_C02_DEBUG").is_ok() {
-            eprintln!("LOOK level={} layers={} boundary={} zeros={zeros} sum={sum} have={have} want={want}", c.level, c.layers, c.boundary);
-        }
         if have == want {
             reached = true;
             break;
